@@ -363,3 +363,20 @@ def write_evidence(prop, doc):
 
 def scratch_dir(prefix="isoverif_"):
     return tempfile.mkdtemp(prefix=prefix)
+
+
+def gff_db_from_string(text, **kw):
+    """gffutils.create_db(text, ':memory:', from_string=True, ...) without the file gffutils leaves behind: its string
+    iterator writes the text to NamedTemporaryFile(delete=False) and never removes it (hundreds of files in /tmp per check
+    run).  The temp file is only read while the database is built, so it goes into a private folder removed afterwards."""
+    import shutil
+    import tempfile
+    import gffutils
+    d = tempfile.mkdtemp(prefix="vgff_")
+    old = tempfile.tempdir
+    tempfile.tempdir = d
+    try:
+        return gffutils.create_db(text, ":memory:", from_string=True, **kw)
+    finally:
+        tempfile.tempdir = old
+        shutil.rmtree(d, ignore_errors=True)
